@@ -282,7 +282,7 @@ def setup(tier, seed):
     jobs = _jobs(tier)
     return {
         'jobs': jobs,
-        'budget_s': 900 if tier == 'quick' else 3300,
+        'budget_s': 780 if tier == 'quick' else 3300,
         'explanation': 'the real Strategy/Broker/Sandbox run inside research.backtest on symbolic candles; declared entry prices are symbolic around '
                        'the 0.015% boundary of the current price, exits are symbolic; a wrapper around Order.__init__ records type/side/qty/price/'
                        'reduce_only and strategy.price at that moment; z3 proves per order: exactly a declared (qty, price); MARKET iff within 0.015%, '
